@@ -827,7 +827,10 @@ class UniformTime(np.ndarray, TimeInterface):
                 val = val.astype(np.int64)
             val = val * self._conversion_factor
         d_interval = 0
-        if hasattr(val, 'ndim') and val.ndim == 1:
+        if hasattr(val, 'ndim') and val.ndim == 1 and len(val) == 0:
+            raise ValueError('An empty operand cannot shift a time axis')
+        # (a 1-d operand with a single element is broadcast by numpy: a shift)
+        if hasattr(val, 'ndim') and val.ndim == 1 and len(val) > 1:
             # we have to check that adding this will preserve uniformity
             dv = np.diff(val)
             uniformity_breaks, = np.where(dv!=dv[0])
